@@ -72,9 +72,14 @@ type Dyn struct {
 	Snapshots  []func() func() string // take Values()/Keys() and a deep copy now; the returned func later reports a difference
 	SortedBy   func(cmpIdx int) (name string, got []any, sortedOK bool, isPerm bool)
 	// JSON denotation and document generation (C11, C12)
-	Denote     func(data []byte) (elems []any, ok bool) // elements / pairs in the order PutAny must insert them
-	GenDoc     func(r *core.R, n int, dupKeys, dupVals bool) []byte
-	Wide       bool // built over a domain of hundreds of distinct elements
+	Denote func(data []byte) (elems []any, ok bool) // elements / pairs in the order PutAny must insert them
+	GenDoc func(r *core.R, n int, dupKeys, dupVals bool) []byte
+	Wide   bool // built over a domain of hundreds of distinct elements
+	// peak-then-drain histories (shrink policies, deferred compaction): insert
+	// one element from the wide generator / remove one previously inserted
+	// element, without reading the container
+	PutWide    func(r *core.R) any
+	RemoveOne  func(v any)
 	TotalOrder bool // the comparator(s) in use distinguish all elements of the domain (no ties between distinct elements)
 }
 
@@ -375,6 +380,8 @@ func dynFromList[T comparable](kind string, l listAPI[T], p pender[T], js jsonAP
 	dy.ElemOf = func(r *core.R) any { return d.Val(r) }
 	dy.PutAny = func(vs []any) { l.Add(fromAny[T](vs)...) }
 	dy.Grow = func(c *core.Ctx) { v := d.Vals(c.R, c.R.Range(1, 3)); c.Begin(kind, "Add", v); l.Add(v...) }
+	dy.PutWide = func(r *core.R) any { v := d.Wide(r); l.Add(v); return v }
+	dy.RemoveOne = func(any) { l.Remove(0) }
 	dy.Mutate = func(c *core.Ctx) {
 		r := c.R
 		n := l.Size()
@@ -483,6 +490,8 @@ func dynFromSet[T comparable](kind string, s sets.Set[T], js jsonAPI, d *Dom[T],
 	dy.ElemOf = func(r *core.R) any { return d.Val(r) }
 	dy.PutAny = func(vs []any) { s.Add(fromAny[T](vs)...) }
 	dy.Grow = func(c *core.Ctx) { v := d.Vals(c.R, c.R.Range(1, 3)); c.Begin(kind, "Add", v); s.Add(v...) }
+	dy.PutWide = func(r *core.R) any { v := d.Wide(r); s.Add(v); return v }
+	dy.RemoveOne = func(v any) { s.Remove(v.(T)) }
 	dy.Mutate = func(c *core.Ctx) {
 		r := c.R
 		v := d.Vals(r, varCount(r))
@@ -545,6 +554,8 @@ func dynFromStack[T comparable](kind string, s stacks.Stack[T], js jsonAPI, d *D
 		}
 	}
 	dy.Take = func() (any, bool) { return s.Pop() }
+	dy.PutWide = func(r *core.R) any { v := d.Wide(r); s.Push(v); return v }
+	dy.RemoveOne = func(any) { s.Pop() }
 	dy.Grow = func(c *core.Ctx) { v := d.Val(c.R); c.Begin(kind, "Push", v); s.Push(v) }
 	dy.Mutate = func(c *core.Ctx) {
 		if c.R.Intn(5) < 3 {
@@ -608,6 +619,8 @@ func dynFromQueue[T comparable](kind string, q queues.Queue[T], js jsonAPI, d *D
 		}
 	}
 	dy.Take = func() (any, bool) { return q.Dequeue() }
+	dy.PutWide = func(r *core.R) any { v := d.Wide(r); q.Enqueue(v); return v }
+	dy.RemoveOne = func(any) { q.Dequeue() }
 	dy.Grow = func(c *core.Ctx) { v := d.Val(c.R); c.Begin(kind, "Enqueue", v); q.Enqueue(v) }
 	dy.Mutate = func(c *core.Ctx) {
 		if c.R.Intn(5) < 3 {
@@ -635,6 +648,8 @@ func dynFromHeap[T comparable](kind string, h *binaryheap.Heap[T], d *Dom[T], co
 		}
 	}
 	dy.Take = func() (any, bool) { return h.Pop() }
+	dy.PutWide = func(r *core.R) any { v := d.Wide(r); h.Push(v); return v }
+	dy.RemoveOne = func(any) { h.Pop() }
 	dy.Grow = func(c *core.Ctx) { v := d.Vals(c.R, c.R.Range(1, 3)); c.Begin(kind, "Push", v); h.Push(v...) }
 	dy.Mutate = func(c *core.Ctx) {
 		if c.R.Intn(5) < 3 {
@@ -678,6 +693,8 @@ func dynFromMap[K comparable, V comparable](kind, family string, m maps.Map[K, V
 	}
 	dy.ElemOf = func(r *core.R) any { return [2]any{dk.Val(r), dv.Val(r)} }
 	dy.Grow = func(c *core.Ctx) { k, v := dk.Val(c.R), dv.Val(c.R); c.Begin(kind, "Put", k, v); m.Put(k, v) }
+	dy.PutWide = func(r *core.R) any { k, v := dk.Wide(r), dv.Wide(r); m.Put(k, v); return k }
+	dy.RemoveOne = func(k any) { m.Remove(k.(K)) }
 	dy.Mutate = func(c *core.Ctx) {
 		if c.R.Intn(5) < 3 {
 			dy.Grow(c)
@@ -709,9 +726,28 @@ func dynFromMap[K comparable, V comparable](kind, family string, m maps.Map[K, V
 	return dy
 }
 
+// PeakDrain grows the container to about `peak` elements from the wide
+// generator and then removes about 85% of what was inserted, without reading
+// the container: the history behind shrink policies, tombstone compaction and
+// "rebuild when mostly empty" heuristics.
+func (d *Dyn) PeakDrain(c *core.Ctx, peak int) {
+	c.Begin(d.Kind, "peak-then-drain", peak)
+	ins := make([]any, 0, peak)
+	for i := 0; i < peak; i++ {
+		ins = append(ins, d.PutWide(c.R))
+	}
+	for _, v := range ins[:peak*85/100] {
+		d.RemoveOne(v)
+	}
+	c.Count("dyn:peak-then-drain", 1)
+}
+
 // build drives a Dyn into a state reached by a random history of about n
 // mutating calls.
 func (d *Dyn) build(c *core.Ctx, n int) {
+	if n > 0 && c.R.Chance(1, 40) && d.Kind != "BinaryHeap" && d.Kind != "PriorityQueue" {
+		d.PeakDrain(c, c.R.Range(1100, 2600))
+	}
 	if d.Wide && n > 0 {
 		n = n*20 + 200 // hundreds to a couple of thousand calls
 	}
